@@ -195,20 +195,43 @@ def f_candidates(F, res):
     # over an iterator that went through a set difference / a filter, not over the wider set as it is (elements of the
     # intersection would use up the budget and candidates that satisfy the constraints are left out)
     if topup:
-        du_t = mir.DefUse(f)
-        PASS = ("std::collections::HashSet::<T, S, A>::iter", "std::iter::IntoIterator::into_iter", "std::iter::Iterator::cloned", "std::iter::Iterator::copied",
-                "std::clone::Clone::clone", "std::convert::Into::into", "std::convert::From::from", "std::ops::Deref::deref", "std::iter::Iterator::flatten",
-                "std::option::Option::<T>::into_iter", "std::iter::Iterator::map")
+        # forward data flow from the reads of the wider field; a set difference / filter / retain ends it
+        CLEAN = ("::difference", "::filter", "::filter_map", "::retain", "::skip_while", "::take_while", "::symmetric_difference")
+        wide = set()
+        for bi, si, s in mir.stmts(f):
+            if bi in topup and not s["lhs"]["p"]:
+                rv = s["rv"]
+                pl = rv.get("pl") if rv["k"] == "ref" else mir.op_place(rv.get("op")) if rv["k"] in ("use", "cast") else None
+                if pl is not None and any(q[0] == "f" and q[2] == SS and q[1] in fields and q[1] not in meet for q in pl["p"]):
+                    wide.add(s["lhs"]["l"])
+
+        def _locals_of(ops):
+            for o in ops:
+                pl = mir.op_place(o) if isinstance(o, dict) else None
+                if pl is not None:
+                    yield pl["l"]
+        changed = True
+        while changed:
+            changed = False
+            for bi, si, s in mir.stmts(f):
+                rv = s["rv"]
+                ops = [rv.get(k) for k in ("op", "a", "b") if isinstance(rv.get(k), dict)] + list(rv.get("ops") or [])
+                if rv.get("pl") is not None:
+                    ops.append({"cp": rv["pl"]})
+                if any(l in wide for l in _locals_of(ops)) and s["lhs"]["l"] not in wide:
+                    wide.add(s["lhs"]["l"])
+                    changed = True
+            for bi, t in mir.calls(f):
+                c = t.get("callee") or ""
+                if any(c.endswith(x) or (x + "::") in c for x in CLEAN):
+                    continue
+                if any(l in wide for l in _locals_of(t["args"])) and t["dest"]["l"] not in wide:
+                    wide.add(t["dest"]["l"])
+                    changed = True
         raw = []
         for bi, t in mir.calls(f):
-            if (t.get("callee") or "") != "std::iter::Iterator::take" or not t["args"]:
-                continue
-            for o in mir.provenance(f, du_t, t["args"][0], transparent_extra=PASS):
-                if (o.kind == "arg" and o.local == 1 and any(pr.lstrip(".") in (fields_set := set(fields)) and pr.lstrip(".") not in meet for pr in o.proj)) \
-                        or (o.kind == "call" and o.callee.startswith(NARROW) and o.term["args"] and any(
-                            x.kind == "arg" and x.local == 1 and any(pr.lstrip(".") in set(fields) and pr.lstrip(".") not in meet for pr in x.proj)
-                            for x in mir.provenance(f, du_t, o.term["args"][0], transparent_extra=PASS))):
-                    raw.append(t["line"])
+            if (t.get("callee") or "") == "std::iter::Iterator::take" and t["args"] and any(l in wide for l in _locals_of(t["args"][:1])):
+                raw.append(t["line"])
         key_d = f["path"] + "|the top-up is bounded after removing what is already picked"
         if raw:
             res.add([finding("S-TOPUP", key_d, where(f, raw[0]), "the `take(n)` that bounds the top-up runs over the wider set itself, not over what is left of it after removing the candidates already picked: refs of the intersection use up the window and UTxOs that meet the constraints are left out")])
